@@ -1,3 +1,524 @@
-// stub
-static void run_c12(Context&) {}
-template <class T> static bool c12_replay(Context&, const std::string&, const Target&, const xsv_entry*, const T*, const T*) { return true; }
+// C12: special values, domains, exact identities and symmetries of the elementary functions.
+enum Want
+{
+    W_NAN,
+    W_PINF,
+    W_NINF,
+    W_EXACT, // bit-identical to `val`
+    W_NUM // numerically equal to `val` (either zero)
+};
+struct Row
+{
+    const char* fn;
+    double x, y; // y unused for unary
+    Want want;
+    double val;
+};
+static const double kNaN = std::numeric_limits<double>::quiet_NaN(), kInf = std::numeric_limits<double>::infinity();
+
+template <class T>
+static std::vector<Row> c12_rows()
+{
+    using L = std::numeric_limits<T>;
+    const double MAX = (double)L::max(), DEN = (double)L::denorm_min();
+    std::vector<Row> r;
+    static const char* unary[] = { "exp", "exp2", "exp10", "expm1", "log", "log2", "log10", "log1p", "sin", "cos", "tan", "sincos_s", "sincos_c", "asin", "acos", "atan", "sinh", "cosh", "tanh", "asinh", "acosh", "atanh", "cbrt", "erf", "erfc", "tgamma", "lgamma", "sqrt" };
+    for (const char* f : unary)
+        r.push_back({ f, kNaN, 0, W_NAN, 0 });
+    for (const char* f : { "atan2", "hypot" })
+    {
+        r.push_back({ f, kNaN, 1.5, W_NAN, 0 });
+        r.push_back({ f, 1.5, kNaN, W_NAN, 0 });
+    }
+    r.push_back({ "pow", kNaN, 1.5, W_NAN, 0 });
+    r.push_back({ "pow", 1.5, kNaN, W_NAN, 0 });
+    // domain errors
+    for (const char* f : { "log", "log2", "log10", "sqrt" })
+        for (double x : { -1.0, -0.5, -MAX, -DEN, -kInf, -1e-30, -3.0 })
+            if (!(std::string(f) == "sqrt" && x == 0))
+                r.push_back({ f, x, 0, W_NAN, 0 });
+    for (double x : { -1.0000001, -1.5, -2.0, -MAX, -kInf, -1e10 })
+        r.push_back({ "log1p", x, 0, W_NAN, 0 });
+    for (const char* f : { "asin", "acos", "atanh" })
+        for (double x : { 1.0000001, -1.0000001, 2.0, -2.0, MAX, -MAX, kInf, -kInf, 1e10 })
+            r.push_back({ f, (double)std::nextafter((T)1, (T)2) * (x > 0 ? 1 : -1) * (std::fabs(x) < 1.001 ? 1 : 0) + (std::fabs(x) < 1.001 ? 0 : x), 0, W_NAN, 0 });
+    for (double x : { 0.9999999, 0.5, 0.0, -0.0, -1.0, -2.0, -4097.0, -1e10, -MAX, -kInf, DEN })
+        r.push_back({ "acosh", x, 0, W_NAN, 0 });
+    for (double b : { -1.0, -2.5, -0.5, -1e10, -MAX, -DEN })
+        for (double e : { 0.5, -0.5, 1.5, 2.5, 0.1, -3.3, 1e-5 })
+            r.push_back({ "pow", b, e, W_NAN, 0 });
+    // poles and limits
+    for (const char* f : { "log", "log2", "log10" })
+    {
+        r.push_back({ f, 0.0, 0, W_NINF, 0 });
+        r.push_back({ f, -0.0, 0, W_NINF, 0 });
+        r.push_back({ f, kInf, 0, W_PINF, 0 });
+        r.push_back({ f, 1.0, 0, W_NUM, 0.0 });
+    }
+    r.push_back({ "log1p", -1.0, 0, W_NINF, 0 });
+    r.push_back({ "log1p", kInf, 0, W_PINF, 0 });
+    for (const char* f : { "exp", "exp2", "exp10" })
+    {
+        r.push_back({ f, -kInf, 0, W_NUM, 0.0 });
+        r.push_back({ f, kInf, 0, W_PINF, 0 });
+        r.push_back({ f, 0.0, 0, W_EXACT, 1.0 });
+        r.push_back({ f, -0.0, 0, W_EXACT, 1.0 });
+    }
+    r.push_back({ "expm1", -kInf, 0, W_EXACT, -1.0 });
+    r.push_back({ "expm1", kInf, 0, W_PINF, 0 });
+    r.push_back({ "atan", kInf, 0, W_EXACT, (double)(T)1.57079632679489661923132169163975144L });
+    r.push_back({ "atan", -kInf, 0, W_EXACT, -(double)(T)1.57079632679489661923132169163975144L });
+    r.push_back({ "tanh", kInf, 0, W_EXACT, 1.0 });
+    r.push_back({ "tanh", -kInf, 0, W_EXACT, -1.0 });
+    r.push_back({ "erf", kInf, 0, W_EXACT, 1.0 });
+    r.push_back({ "erf", -kInf, 0, W_EXACT, -1.0 });
+    r.push_back({ "erfc", kInf, 0, W_NUM, 0.0 });
+    r.push_back({ "erfc", -kInf, 0, W_EXACT, 2.0 });
+    r.push_back({ "tgamma", 0.0, 0, W_PINF, 0 });
+    r.push_back({ "tgamma", -0.0, 0, W_NINF, 0 });
+    r.push_back({ "tgamma", kInf, 0, W_PINF, 0 });
+    for (double k : { -1.0, -2.0, -3.0, -10.0, -33.0, -34.0, -40.0, -100.0, -171.0, -1000.0, -1e10, -MAX })
+    {
+        r.push_back({ "tgamma", k, 0, W_NAN, 0 });
+        r.push_back({ "lgamma", k, 0, W_PINF, 0 });
+    }
+    r.push_back({ "lgamma", 0.0, 0, W_PINF, 0 });
+    r.push_back({ "lgamma", kInf, 0, W_PINF, 0 });
+    r.push_back({ "cbrt", kInf, 0, W_PINF, 0 });
+    r.push_back({ "cbrt", -kInf, 0, W_NINF, 0 });
+    r.push_back({ "sqrt", kInf, 0, W_PINF, 0 });
+    r.push_back({ "sinh", kInf, 0, W_PINF, 0 });
+    r.push_back({ "sinh", -kInf, 0, W_NINF, 0 });
+    r.push_back({ "cosh", kInf, 0, W_PINF, 0 });
+    r.push_back({ "cosh", -kInf, 0, W_PINF, 0 });
+    r.push_back({ "asinh", kInf, 0, W_PINF, 0 });
+    r.push_back({ "asinh", -kInf, 0, W_NINF, 0 });
+    r.push_back({ "acosh", kInf, 0, W_PINF, 0 });
+    r.push_back({ "acosh", 1.0, 0, W_NUM, 0.0 });
+    r.push_back({ "atanh", 1.0, 0, W_PINF, 0 });
+    r.push_back({ "atanh", -1.0, 0, W_NINF, 0 });
+    for (const char* f : { "sin", "cos", "tan", "sincos_s", "sincos_c" })
+    {
+        r.push_back({ f, kInf, 0, W_NAN, 0 });
+        r.push_back({ f, -kInf, 0, W_NAN, 0 });
+    }
+    // exact identities
+    r.push_back({ "cos", 0.0, 0, W_EXACT, 1.0 });
+    r.push_back({ "cos", -0.0, 0, W_EXACT, 1.0 });
+    r.push_back({ "sincos_c", 0.0, 0, W_EXACT, 1.0 });
+    r.push_back({ "cosh", 0.0, 0, W_EXACT, 1.0 });
+    for (double x : { 1.0, -1.0, 2.5, -2.5, MAX, -MAX, DEN, -DEN, 1e-30, -1e30, 0.3 })
+    {
+        r.push_back({ "pow", x, 0.0, W_EXACT, 1.0 });
+        r.push_back({ "pow", x, -0.0, W_EXACT, 1.0 });
+    }
+    for (const char* f : { "sin", "tan", "asin", "atan", "sinh", "tanh", "asinh", "atanh", "cbrt", "erf", "expm1", "log1p", "sincos_s" })
+        r.push_back({ f, 0.0, 0, W_NUM, 0.0 });
+    return r;
+}
+
+template <class T>
+static bool c12_want_ok(const Row& w, T got)
+{
+    switch (w.want)
+    {
+    case W_NAN: return std::isnan(got);
+    case W_PINF: return std::isinf(got) && got > 0;
+    case W_NINF: return std::isinf(got) && got < 0;
+    case W_EXACT: return model::bits(got) == model::bits((T)w.val);
+    default: return got == (T)w.val;
+    }
+}
+static const char* want_str(const Row& w)
+{
+    static char b[64];
+    switch (w.want)
+    {
+    case W_NAN: return "NaN";
+    case W_PINF: return "+inf";
+    case W_NINF: return "-inf";
+    default: snprintf(b, sizeof b, "%.17g", w.val); return b;
+    }
+}
+
+template <class T>
+static void c12_table(Context& cx)
+{
+    auto rows = c12_rows<T>();
+    static const T ordinary[] = { (T)0.3, (T)0.7, (T)1.25, (T)2, (T)0.5, (T)1.5, (T)0.9, (T)3 };
+    size_t item = 0;
+    for (auto& w : rows)
+    {
+        const Fn* f = mfn::find(w.fn);
+        if (!cx.opt.only_ops.empty() && !cx.opt.only_ops.count(w.fn))
+            continue;
+        const bool binary = f && f->arity == 2;
+        for (auto& tg : g_targets)
+        {
+            const xsv_entry* e = tg.find(w.fn, prec<T>::tn);
+            if (!e)
+                continue;
+            if ((int)(item++ % (size_t)cx.opt.nworkers) != cx.opt.worker)
+                continue;
+            const int n = e->lanes;
+            // layouts: broadcast of the special operand; the special at each lane among ordinary values
+            for (int pos = -1; pos < n; ++pos)
+            {
+                T xs[64], ys[64], out[64];
+                for (int l = 0; l < n; ++l)
+                {
+                    xs[l] = pos < 0 ? (T)w.x : ordinary[(l + (pos < 0 ? 0 : pos)) % 8];
+                    ys[l] = pos < 0 ? (T)w.y : ordinary[(l * 3 + 1) % 8];
+                }
+                if (pos >= 0)
+                {
+                    xs[pos] = (T)w.x;
+                    ys[pos] = (T)w.y;
+                }
+                CallResult cr = call<T>(cx, tg, e, xs, binary ? ys : nullptr, out);
+                cx.st.evaluations++;
+                cx.st.lane_checks++;
+                const int lane = pos < 0 ? 0 : pos;
+                bool ok = !cr.overflowed && c12_want_ok<T>(w, out[lane]);
+                if (pos < 0 && ok)
+                    for (int l = 1; l < n; ++l)
+                        ok = ok && c12_want_ok<T>(w, out[l]);
+                if (!ok)
+                {
+                    std::string key = std::string(w.fn) + ":" + prec<T>::tn + ":" + tg.name;
+                    Violation v = math_viol<T>(cx, w.fn, tg, n, xs, binary ? ys : nullptr, lane, want_str(w), cr.overflowed ? "(no return)" : lane_str(prec<T>::tid, &out[lane]),
+                                               std::string("special-value rule violated: ") + w.fn + "(" + lane_str(prec<T>::tid, &xs[lane]) + (binary ? ", " + lane_str(prec<T>::tid, &ys[lane]) : "") + ") must be " + want_str(w) + (pos < 0 ? " [broadcast]" : " [special operand at lane " + std::to_string(pos) + " among ordinary values]"));
+                    if (!cx.has_violation(key))
+                        cx.add_violation(v);
+                }
+            }
+        }
+    }
+    cx.st.distinct_extra += rows.size() * 2; // every table row is non-trivial by construction (broadcast + placed)
+    cx.st.classes[std::string("table_rows_") + prec<T>::tn] = rows.size();
+    if (cx.opt.worker == 0)
+        cx.st.samples.push_back(std::string("{\"table_row\":\"") + rows[rows.size() / 2].fn + "(" + std::to_string(rows[rows.size() / 2].x) + ") -> " + want_str(rows[rows.size() / 2]) + "\"}");
+}
+
+// ---- relations: bit-for-bit, oracle-free
+struct Rel
+{
+    const char* a; // function evaluated at x
+    const char* b; // function evaluated at +-x
+    int kind; // 0: a(x) == b(x) ; 1: a(-x) == -a(x) (odd) ; 2: a(-x) == a(x) (even)
+};
+static const Rel kRels[] = {
+    { "sincos_s", "sin", 0 }, { "sincos_c", "cos", 0 }, { "fabs", "abs", 0 }, { "rint", "nearbyint", 0 },
+    { "sin", "sin", 1 }, { "tan", "tan", 1 }, { "asin", "asin", 1 }, { "atan", "atan", 1 }, { "sinh", "sinh", 1 }, { "tanh", "tanh", 1 }, { "asinh", "asinh", 1 }, { "atanh", "atanh", 1 }, { "cbrt", "cbrt", 1 }, { "erf", "erf", 1 },
+    { "cos", "cos", 2 }, { "cosh", "cosh", 2 },
+};
+template <class T>
+static bool rel_holds(int kind, T fa, T fb)
+{
+    if (std::isnan(fa) || std::isnan(fb))
+        return std::isnan(fa) && std::isnan(fb);
+    if (kind == 1)
+        return model::bits(fb) == model::bits((T)-fa);
+    return model::bits(fa) == model::bits(fb);
+}
+
+template <class T>
+static bool c12_rel_batch(Context& cx, const Rel& r, const Target& tg, const xsv_entry* ea, const xsv_entry* eb, const T* xs, const T* comp, int npos)
+{
+    // the two evaluations are made in separate batches with different companions
+    const int n = ea->lanes;
+    T a[64], b[64], oa[64], ob[64];
+    bool ok = true;
+    for (int l = 0; l < n; ++l)
+    {
+        a[l] = xs[l];
+        b[l] = r.kind == 0 ? xs[l] : (T)-xs[l];
+    }
+    // second batch: rotate the lanes and replace every other one by a companion
+    T b2[64];
+    int map[64];
+    for (int l = 0; l < n; ++l)
+    {
+        int src = (l + npos) % n;
+        map[l] = src;
+        b2[l] = b[src];
+        if (comp && (l & 1))
+        {
+            b2[l] = comp[l % 8];
+            map[l] = -1;
+        }
+    }
+    CallResult ca = call<T>(cx, tg, ea, a, nullptr, oa);
+    CallResult cb = call<T>(cx, tg, eb, b2, nullptr, ob);
+    if (ca.overflowed || cb.overflowed)
+        return true; // C14's business
+    for (int l = 0; l < n; ++l)
+    {
+        if (map[l] < 0)
+            continue;
+        cx.st.lane_checks++;
+        if (!rel_holds<T>(r.kind, oa[map[l]], ob[l]))
+        {
+            ok = false;
+            std::string key = std::string(r.a) + ":" + prec<T>::tn + ":" + tg.name;
+            if (!cx.has_violation(key))
+            {
+                static const char* kn[] = { "must be bit-identical", "odd symmetry f(-x) == -f(x) must hold bit for bit", "even symmetry f(-x) == f(x) must hold bit for bit" };
+                Violation v = math_viol<T>(cx, r.a, tg, n, a, b2, map[l], lane_str(prec<T>::tid, &oa[map[l]]), lane_str(prec<T>::tid, &ob[l]),
+                                           std::string(r.a) + "(x) vs " + r.b + (r.kind ? "(-x)" : "(x)") + ": " + kn[r.kind] + " (second evaluation in another batch, lane " + std::to_string(l) + ", different companions)");
+                v.extra = ",\"relation\":" + jstr(std::string(r.a) + "|" + r.b + "|" + std::to_string(r.kind));
+                cx.add_violation(v);
+            }
+        }
+    }
+    return ok;
+}
+
+template <class T>
+static void c12_relations(Context& cx)
+{
+    const bool thorough = cx.opt.thorough();
+    static const T comp[] = { (T)0.3, (T)2, (T)50, (T)3000, (T)1e9, (T)-0.7, (T)1e-3, (T)-40 };
+    size_t item = 0;
+    uint64_t nontriv = 0;
+    for (auto& r : kRels)
+    {
+        if (!cx.opt.only_ops.empty() && !cx.opt.only_ops.count(r.a))
+            continue;
+        for (auto& tg : g_targets)
+        {
+            const xsv_entry* ea = tg.find(r.a, prec<T>::tn);
+            const xsv_entry* eb = tg.find(r.b, prec<T>::tn);
+            if (!ea || !eb)
+                continue;
+            if ((int)(item++ % (size_t)cx.opt.nworkers) != cx.opt.worker)
+                continue;
+            const int n = ea->lanes;
+            T xs[64];
+            if (sizeof(T) == 4)
+            {
+                const uint64_t stride = thorough ? 1 : 4099;
+                const uint64_t phase = mix64(cx.opt.seed ^ hash_str(r.a)) % stride;
+                uint64_t k = 0;
+                for (uint64_t u = phase; u < (1ull << 32); u += stride * n, ++k)
+                {
+                    for (int l = 0; l < n; ++l)
+                    {
+                        uint32_t w = (uint32_t)(u + (uint64_t)l * stride);
+                        memcpy(&xs[l], &w, 4);
+                    }
+                    cx.st.evaluations++;
+                    ++nontriv;
+                    c12_rel_batch<T>(cx, r, tg, ea, eb, xs, (k & 1) ? comp : nullptr, (int)(k % (uint64_t)n));
+                }
+            }
+            else
+            {
+                rc::detail::TestParams params = rc::detail::configuration().testParams;
+                params.seed = mix64(params.seed ^ hash_str(r.a, 8) ^ hash_str(tg.name));
+                params.maxSuccess = (int)std::max<long>(1, cx.opt.budget);
+                rc::detail::TestMetadata md;
+                md.id = std::string("rel:") + r.a + ":" + tg.name;
+                const Fn* f = mfn::find(r.a);
+                rc::detail::checkTestable(
+                    [&]() {
+                        const int cls = *rc::gen::resize(100, rc::gen::inRange<int>(0, 6));
+                        auto v = f ? *rc::gen::container<std::vector<double>>((size_t)n, rc::gen::resize(100, c11_arg(*f, cls)))
+                                   : *rc::gen::container<std::vector<double>>((size_t)n, rc::gen::map(rc::gen::arbitrary<uint64_t>(), [](uint64_t b) { double d; uint64_t m = mix64(b); memcpy(&d, &m, 8); return d; }));
+                        for (int l = 0; l < n; ++l)
+                            xs[l] = (T)v[l];
+                        const int np = *rc::gen::resize(100, rc::gen::inRange<int>(0, n));
+                        const bool wc = *rc::gen::arbitrary<bool>();
+                        cx.st.evaluations++;
+                        cx.st.note_distinct(hash_bytes(xs, sizeof(T) * n, hash_str(r.a)));
+                        RC_ASSERT(c12_rel_batch<T>(cx, r, tg, ea, eb, xs, wc ? comp : nullptr, np));
+                    },
+                    md, params);
+            }
+        }
+        cx.write_out();
+    }
+    cx.st.distinct_extra += nontriv;
+    cx.st.nontrivial_cases += nontriv;
+}
+
+// ---- domain sweeps: every argument outside the mathematical domain yields NaN
+template <class T>
+static void c12_domains(Context& cx)
+{
+    struct Dom
+    {
+        const char* fn;
+        bool (*outside)(double);
+    };
+    static const Dom doms[] = {
+        { "log", [](double x) { return x < 0; } }, { "log2", [](double x) { return x < 0; } }, { "log10", [](double x) { return x < 0; } }, { "sqrt", [](double x) { return x < 0; } },
+        { "log1p", [](double x) { return x < -1; } }, { "asin", [](double x) { return std::fabs(x) > 1; } }, { "acos", [](double x) { return std::fabs(x) > 1; } },
+        { "acosh", [](double x) { return x < 1; } }, { "atanh", [](double x) { return std::fabs(x) > 1; } },
+    };
+    const bool thorough = cx.opt.thorough();
+    size_t item = 0;
+    uint64_t nontriv = 0;
+    for (auto& d : doms)
+        for (auto& tg : g_targets)
+        {
+            const xsv_entry* e = tg.find(d.fn, prec<T>::tn);
+            if (!e)
+                continue;
+            if ((int)(item++ % (size_t)cx.opt.nworkers) != cx.opt.worker)
+                continue;
+            const int n = e->lanes;
+            T xs[64], out[64];
+            const uint64_t stride = sizeof(T) == 4 ? (thorough ? 1 : 2053) : 1;
+            const uint64_t count = sizeof(T) == 4 ? (1ull << 32) / stride : (thorough ? 20000000ull : 400000ull);
+            const uint64_t phase = mix64(cx.opt.seed ^ hash_str(d.fn));
+            for (uint64_t k = 0; k < count; k += n)
+            {
+                for (int l = 0; l < n; ++l)
+                {
+                    if (sizeof(T) == 4)
+                    {
+                        uint32_t w = (uint32_t)(phase % stride + (k + l) * stride);
+                        memcpy(&xs[l], &w, 4);
+                    }
+                    else
+                    {
+                        uint64_t w = mix64(phase + k + l);
+                        memcpy(&xs[l], &w, 8);
+                    }
+                }
+                CallResult cr = call<T>(cx, tg, e, xs, nullptr, out);
+                cx.st.evaluations++;
+                if (cr.overflowed)
+                    continue;
+                for (int l = 0; l < n; ++l)
+                {
+                    if (std::isnan(xs[l]) || !d.outside((double)xs[l]))
+                        continue;
+                    cx.st.lane_checks++;
+                    ++nontriv;
+                    if (!std::isnan(out[l]))
+                    {
+                        std::string key = std::string(d.fn) + ":" + prec<T>::tn + ":" + tg.name;
+                        if (!cx.has_violation(key))
+                            cx.add_violation(math_viol<T>(cx, d.fn, tg, n, xs, nullptr, l, "NaN", lane_str(prec<T>::tid, &out[l]), std::string(d.fn) + " of an argument outside its mathematical domain must be NaN"));
+                    }
+                }
+            }
+        }
+    // pow(negative base, non-integer exponent) = NaN
+    for (auto& tg : g_targets)
+    {
+        const xsv_entry* e = tg.find("pow", prec<T>::tn);
+        if (!e)
+            continue;
+        if ((int)(item++ % (size_t)cx.opt.nworkers) != cx.opt.worker)
+            continue;
+        const int n = e->lanes;
+        rc::detail::TestParams params = rc::detail::configuration().testParams;
+        params.seed = mix64(params.seed ^ hash_str("powdom", sizeof(T)) ^ hash_str(tg.name));
+        params.maxSuccess = (int)std::max<long>(1, cx.opt.budget * 4);
+        rc::detail::TestMetadata md;
+        md.id = "pow-domain:" + tg.name;
+        rc::detail::checkTestable(
+            [&]() {
+                T xs[64], ys[64], out[64];
+                auto bx = *rc::gen::container<std::vector<uint64_t>>((size_t)(2 * n), rc::gen::arbitrary<uint64_t>());
+                for (int l = 0; l < n; ++l)
+                {
+                    uint64_t a = mix64(bx[l]), b = mix64(bx[n + l]);
+                    int ex = (int)(a % 60) - 30;
+                    double base = -std::ldexp(1.0 + (double)(a >> 12) / 4503599627370496.0, (a >> 8) % 3 ? ex : (int)(a % 200) - 100);
+                    double frac = (double)((b >> 8) % 1023 + 1) / 1024.0; // never an integer
+                    double expo = (double)((int)(b % 41) - 20) + frac;
+                    xs[l] = (T)base;
+                    ys[l] = (T)expo;
+                    if ((T)expo == std::trunc((T)expo))
+                        ys[l] = (T)0.5;
+                }
+                CallResult cr = call<T>(cx, tg, e, xs, ys, out);
+                cx.st.evaluations++;
+                cx.st.note_distinct(hash_bytes(xs, sizeof(T) * n, hash_bytes(ys, sizeof(T) * n)));
+                bool ok = true;
+                for (int l = 0; l < n && !cr.overflowed; ++l)
+                {
+                    cx.st.lane_checks++;
+                    if (!std::isnan(out[l]))
+                    {
+                        ok = false;
+                        cx.add_violation(math_viol<T>(cx, "pow", tg, n, xs, ys, l, "NaN", lane_str(prec<T>::tid, &out[l]), "pow of a negative base with a non-integer exponent must be NaN"));
+                    }
+                }
+                RC_ASSERT(ok);
+            },
+            md, params);
+    }
+    cx.st.distinct_extra += nontriv;
+    cx.st.nontrivial_cases += nontriv;
+}
+
+static void run_c12(Context& cx)
+{
+    c12_table<float>(cx);
+    c12_table<double>(cx);
+    cx.write_out();
+    c12_domains<float>(cx);
+    c12_domains<double>(cx);
+    cx.write_out();
+    c12_relations<float>(cx);
+    c12_relations<double>(cx);
+}
+
+template <class T>
+static bool c12_replay(Context& cx, const std::string& op, const Target& tg, const xsv_entry* e, const T* xs, const T* ys)
+{
+    // replays a table/domain row: the recorded batch is re-run and every lane is judged by the table rows that match it,
+    // and by the domain rule; relation records are re-run through c12_rel_batch
+    const int n = e->lanes;
+    bool ok = true;
+    for (auto& r : kRels)
+        if (op == r.a)
+        {
+            const xsv_entry* eb = tg.find(r.b, prec<T>::tn);
+            if (eb)
+                for (int np = 0; np < n; ++np)
+                    ok = c12_rel_batch<T>(cx, r, tg, e, eb, xs, nullptr, np) && ok;
+        }
+    const Fn* f = mfn::find(op);
+    const bool binary = f && f->arity == 2;
+    T out[64];
+    CallResult cr = call<T>(cx, tg, e, xs, binary ? ys : nullptr, out);
+    if (cr.overflowed)
+        return ok;
+    auto rows = c12_rows<T>();
+    for (int l = 0; l < n; ++l)
+        for (auto& w : rows)
+            if (op == w.fn && model::same((T)w.x, xs[l]) && (!binary || model::same((T)w.y, ys[l])))
+                if (!c12_want_ok<T>(w, out[l]))
+                {
+                    ok = false;
+                    cx.add_violation(math_viol<T>(cx, op, tg, n, xs, binary ? ys : nullptr, l, want_str(w), lane_str(prec<T>::tid, &out[l]), "special-value rule violated"));
+                }
+    if (op == "pow")
+        for (int l = 0; l < n; ++l)
+            if (xs[l] < 0 && std::isfinite(ys[l]) && ys[l] != std::trunc(ys[l]) && !std::isnan(out[l]))
+            {
+                ok = false;
+                cx.add_violation(math_viol<T>(cx, op, tg, n, xs, ys, l, "NaN", lane_str(prec<T>::tid, &out[l]), "pow of a negative base with a non-integer exponent must be NaN"));
+            }
+    struct D
+    {
+        const char* fn;
+        double lo, hi; // domain [lo, hi]
+    };
+    static const D ds[] = { { "log", 0, HUGE_VAL }, { "log2", 0, HUGE_VAL }, { "log10", 0, HUGE_VAL }, { "sqrt", 0, HUGE_VAL }, { "log1p", -1, HUGE_VAL }, { "asin", -1, 1 }, { "acos", -1, 1 }, { "acosh", 1, HUGE_VAL }, { "atanh", -1, 1 } };
+    for (auto& d : ds)
+        if (op == d.fn)
+            for (int l = 0; l < n; ++l)
+                if (!std::isnan(xs[l]) && ((double)xs[l] < d.lo || (double)xs[l] > d.hi) && !std::isnan(out[l]))
+                {
+                    ok = false;
+                    cx.add_violation(math_viol<T>(cx, op, tg, n, xs, nullptr, l, "NaN", lane_str(prec<T>::tid, &out[l]), "argument outside the domain must give NaN"));
+                }
+    return ok;
+}
